@@ -116,7 +116,7 @@ Fixpoint ty_nf (t : ty) : ty :=
   match t with
   | TSum rs => TSum (map (map ty_nf) rs)
   | TFunc i o r => TFunc (map ty_nf i) (map ty_nf o) r
-  | TPoly ps i o r => TPoly ps (map ty_nf i) (map ty_nf o) r
+  | TPoly ps i o r => TFunc (map ty_nf i) (map ty_nf o) r        (* only reached where encoding raises *)
   | TOpaque e id a b => TOpaque e id (map arg_nf a) b
   | TExt d a c => TOpaque (td_ext d) (td_name d) (map arg_nf a) (bound_or_any (tbound t))
   | _ => t
